@@ -6,7 +6,9 @@
 (*       isCursorInExcludedPath;                                                 *)
 (*   streams/processors/har-collector/api_stream_obfuscator.go  obfuscateBody /  *)
 (*       filterBodyExclusions (selection by the "$.request.body" /               *)
-(*       "$.response.body" prefix).                                              *)
+(*       "$.response.body" prefix);                                              *)
+(*   services/diagnoses/har_generator_plugin.go  extractBody (request_body_paths /*)
+(*       response_body_paths handed to ObfuscateJSON unfiltered).                *)
 (* Strings are modelled as token sequences: ".key" = <<key>>, "[]" = <<"[]">>,   *)
 (* "$" = <<"$">>; with keys free of '.', '[' and '$' the string suffix / prefix  *)
 (* tests coincide with the token-sequence tests.                                 *)
@@ -23,7 +25,7 @@ CONSTANTS Variant
 IsSuffix(c, x) == Len(c) <= Len(x) /\ SubSeq(x, Len(x) - Len(c) + 1, Len(x)) = c
 
 Render(x) ==
-    CASE x.n = "plain" -> x.segs
+    CASE x.n \in {"plain", "plain_other"} -> x.segs
       [] x.n = "request" -> <<"$", "request", "body">> \o x.segs
       [] x.n = "response" -> <<"$", "response", "body">> \o x.segs
       [] OTHER -> <<"$", "request", "headers">> \o x.segs
@@ -64,6 +66,7 @@ Passed(X, entry) ==
     LET all == {Render(x) : x \in X} IN
     CASE entry = "har_request" -> {s \in all : HasPrefix(s, <<"$", "request", "body">>)}
       [] entry = "har_response" -> {s \in all : HasPrefix(s, <<"$", "response", "body">>)}
+      [] entry \in {"legacy_request", "legacy_response"} -> {Render(x) : x \in {y \in X : y.n # "plain_other"}}   \* the list of this body
       [] OTHER -> all
 
 Obfuscate(d, X, entry) == Walk(d, <<>>, Passed(X, entry), FALSE)
